@@ -465,11 +465,11 @@ def extop_runner(script, lib, root):
         out["clients"][sn] = info
     srv = rt.GrpcServer()
     pkg = script["pkg"]
-    Op = lib.msg_cls(pkg + ".Operation")
     for name in script["flows"]:
         sn, m = name.split(".")
         o = {"rpc": name}
         try:
+            Op = lib.msg_cls(pkg + ".Operation")
             cname = sn if hasattr(root, sn + "Client") else "Base" + sn
             C = getattr(root, cname + "Client")
             client = C(transport=C.get_transport_class("grpc")(channel=grpc.insecure_channel(srv.target)))
